@@ -28,12 +28,6 @@ PROPS["C05"] = {
         H("libfs", "c05_uspace_witness", witness=True),
         H("libfs", "c05_range_uspace_t", tier="thorough", bounds="file <= 6 bytes, 2 faults, unwind 8",
           covers=["ok after a short read"], timeout=3600, mem_gb=24),
-        H("libfs", "c05_bytes_uspace_short_t", tier="thorough", bounds="file <= 5 bytes, short reads/writes, unwind 8",
-          covers=["ok after a short read or write"], timeout=3600, mem_gb=20),
-        H("libfs", "c05_bytes_uspace_eintr_t", tier="thorough", bounds="file <= 3 bytes, 2 EINTR, unwind 8",
-          covers=["ok after EINTR"], timeout=3600, mem_gb=20),
-        H("libfs", "c05_bytes_uspace_fault_t", tier="thorough", bounds="file <= 3 bytes, 1 injected fault, unwind 8",
-          timeout=3600, mem_gb=20),
     ],
 }
 
@@ -291,3 +285,16 @@ for _p in ("C04", "C13", "C14", "C12"):
     PROPS[_p]["e2"] += [E("tree_walker_two_sources", "p_walker", "lemma_tree_walker_two_sources", tier="thorough")]
 PROPS["C06"]["e2"] += [E("uspace_loops", "p_libfs", "lemma_uspace_loops")]
 PROPS["C11"]["e2"] += [E("copy_bytes_step", "p_copy", "lemma_copy_bytes")]
+PROPS["C03"]["e2"] += [E("is_same_file", "p_libfs", "lemma_is_same_file")]
+
+# option wiring: each option-driven property also depends on its option reaching the library configuration
+for _p in ("C02", "C06", "C08", "C09", "C10", "C13", "C15", "C17", "C18", "C20"):
+    PROPS[_p]["e2"] += [E("config_from_opts", "p_main", "lemma_config_from_opts")]
+PROPS["C07"]["e2"] += [E("block_job", "p_parblock", "lemma_block_job")]
+PROPS["C18"]["e2"] += [E("block_job", "p_parblock", "lemma_block_job")]
+# the kernel-copy wrappers and the extent map are part of what "byte-identical" (C01) and "holes stay holes" (C11) rest on
+PROPS["C01"]["e2"] += [E("cfr", "p_libfs", "lemma_cfr"), E("map_extents", "p_libfs", "lemma_map_extents"), E("merge_extents", "p_libfs", "lemma_merge_extents")]
+PROPS["C11"]["e2"] += [E("map_extents", "p_libfs", "lemma_map_extents"), E("merge_extents", "p_libfs", "lemma_merge_extents")]
+# translator validation of the MIR interpreter against compiled code (not a property lemma: it guards the trusted base)
+for _p in ("C01", "C19"):
+    PROPS[_p]["e2"] += [E("interpreter_selftest", "p_selftest", "lemma_interpreter_selftest")]
